@@ -11,24 +11,24 @@ open TsGen
 /-! ## (a) capture view vs match view -/
 
 /-- Events of the match stream that a cursor restricted to `inc` may report as captures. -/
-def visibleEvents (ms : List Match) (inc : Option TSRange) : List CapEv :=
+def visibleEvents (ms : List Match) (inc : Option TSRange) (old : Bool := false) : List CapEv :=
   match inc with
   | none => allEvents ms
-  | some r => (allEvents ms).filter fun e => !captureOutside e.cap.r r
+  | some r => (allEvents ms).filter fun e => !captureOutside e.cap.r r old
 
 /-- Clause (a): same set of (pattern, capture, node) triples, in document order.  Under a range
 restriction the cursor may additionally drop captures whose node is outside the range (it does so
 for finished states only), so there the capture view lies between the visible and all triples. -/
-def judgeA (ms : List Match) (cs : List CapEv) (inc : Option TSRange) : Bool :=
-  let lower := (visibleEvents ms inc).map CapEv.triple
+def judgeA (ms : List Match) (cs : List CapEv) (inc : Option TSRange) (old : Bool := false) : Bool :=
+  let lower := (visibleEvents ms inc old).map CapEv.triple
   let upper := (allEvents ms).map CapEv.triple
   let tc := cs.map CapEv.triple
   subsetB tc upper && subsetB lower tc && startSorted cs
 
 def isEmptyNode (e : CapEv) : Bool := e.cap.r.start_byte == e.cap.r.end_byte
 
-def explainA (ms : List Match) (cs : List CapEv) (inc : Option TSRange) : String :=
-  let evs := visibleEvents ms inc
+def explainA (ms : List Match) (cs : List CapEv) (inc : Option TSRange) (old : Bool := false) : String :=
+  let evs := visibleEvents ms inc old
   let tm := (allEvents ms).map CapEv.triple
   let tc := cs.map CapEv.triple
   let extra := cs.filter fun e => !tm.contains e.triple
